@@ -124,7 +124,7 @@ CLAIMS = {
         "(nd_eq_leastModel, nd_runs_agree) and every schedule of the parallel engine is one (par_is_nd). Tied by ascent_par! twins of generated "
         "relational / lattice / aggregation programs, with and without #![inter_rule_parallelism], in pools of 1..16 threads under seeded perturbation of every "
         "concurrent index insert (hook), vs the serial model and the naive oracle. PARTIAL: lattices and aggregation in parallel mode are covered by the tie "
-        "only (finding F5, aggregates over a lattice in parallel mode, was repaired by fix 058163a and its witness must pass); deadlock-freedom, DashMap/boxcar/RwLock/Mutex atomicity, rayon completion and memory ordering are assumptions, exercised not proved.",
+        "only (finding F5, aggregates over a lattice in parallel mode, was repaired by fix 058163a and its witness must pass); deadlock-freedom, DashMap/boxcar/RwLock/Mutex atomicity, rayon completion and memory ordering are assumptions, exercised not proved. Physical level (Props/C02Phys.lean over Model/EnginePhysPar.lean): the generated ascent_par! code over its concurrent hash indices - frozen / unfrozen protocol with panics, per-thread CRelNoIndex, parallel update_indices, head updates of all workers interleaved - never panics and computes exactly the least model for EVERY schedule and pool size (runPhysPar_eq_leastModel); the relational cases of the tie are compared with this model (eng runpp).",
    design_ref="DESIGN.md §8 C02, §13", note=ENGINE_NOTE),
  "C20": dict(
    engine="tie-B-engine",
@@ -135,7 +135,7 @@ CLAIMS = {
         "loses nothing and re-establishes the invariant (insert_within, moveContents_within, mergeStep_pool_independent); the engine model itself is a pure "
         "function of one program value (instances share no model state). Tied by parallel programs constructed / run / re-run after pushes in pools (a,b,c) "
         "from {1,2,3,8,16}^3 and by groups of instances of the same and of different generated types running at the same time on OS threads. PARTIAL: data "
-        "races on the `static mut` timing counters are UB that neither model nor run can exhibit; they are read by no evaluation step.",
+        "races on the `static mut` timing counters are UB that neither model nor run can exhibit; they are read by no evaluation step. Physical level (Props/C20Phys.lean over Model/EnginePhysPar.lean, the ascent_par! code with its concurrent indices, the frozen / unfrozen protocol and the per-thread CRelNoIndex shards): construct_pool_irrelevant, pool_independent, rerun_other_pool - for every schedule, whatever the pool sizes at construction, first run and re-run, the facts are the same and no run panics (corollaries of runPhysPar_eq_leastModel).",
    design_ref="DESIGN.md §8 C20, §13", note=ENGINE_NOTE),
  "C06": dict(
    engine="tie-B-engine",
@@ -231,7 +231,7 @@ CLAIMS = {
         "nothing (rerun_idempotent: row vectors literally unchanged) and a re-run after pushing facts into any relations equals the least model of the union "
         "of all inputs (monotone_rerun, via lfp(lfp I ∪ J) = lfp(I ∪ J)). For EVERY stratified program with aggregation / negation: the stratified restart theorem "
         "(restart_agg: a completed run from any value between the inputs and the stratified model ends in the stratified model) and its corollary rerun_idempotent_agg "
-        "(Props/C13Agg.lean; aggregators insensitive to input order, proved for the library ones: std_aggPermInvariant). Tied by driving compiled programs through generated histories of run/push/dump.",
+        "(Props/C13Agg.lean; aggregators insensitive to input order, proved for the library ones: std_aggPermInvariant). Tied by driving compiled programs through generated histories of run/push/dump. Physical level (Props/C13Phys.lean): rerun_idempotent_phys, monotone_rerun_phys over the generated code's hash indices (Model/EnginePhys.lean).",
    design_ref="DESIGN.md §8 C13", note=ENGINE_NOTE + " Parallel re-runs are tied (compiled histories), not proved; F2 and F4 are fixed."),
  "C14": dict(
    engine="tie-B-engine",
@@ -240,7 +240,7 @@ CLAIMS = {
         "run_timeout=false leaves only derivable tuples, keeps every input and a well-formed value (timeout_false_sound); after any number of interruptions "
         "at any points a completing call leaves exactly the least model of the original inputs (resume_complete); the same for every stratified program with "
         "aggregation / negation relative to an uninterrupted reference run (timeout_false_sound_agg, resume_complete_agg, Props/C13Agg.lean). Tied by compiled programs with "
-        "#![generate_run_timeout] under the virtual-clock hook, for EVERY crash point k of every case plus repeated interruptions.",
+        "#![generate_run_timeout] under the virtual-clock hook, for EVERY crash point k of every case plus repeated interruptions. Physical level (Props/C13Phys.lean over Model/EnginePhysTimeout.lean): timeout_sound_phys, timeout_true_complete_phys, resume_complete_phys (any number of interruptions: the indices dropped by early returns are rebuilt).",
    design_ref="DESIGN.md §8 C14", note=ENGINE_NOTE + " The wall clock is replaced by the hook (ascent::internal::verif); lattice programs: Props/C13L."),
  "C19": dict(
    engine="tie-C-ds",
